@@ -94,7 +94,7 @@ Verdict run_case(Choices& c, CaseLog& log)
     {
         auto prim = make_primaries(*w, spec.events[e], int(e));
         RunResult r = run_event(*w, step, prim, unsigned(e), 20000);
-        if (r.error.find("insufficient capacity") != std::string::npos)
+        if (r.error.find("insufficient") != std::string::npos)
         {
             // storage exhaustion is C16's subject; here capacity is "ample"
             log.label("capacity-exceeded");
